@@ -78,6 +78,9 @@ pub enum Where {
     ThreadsEnumerated,
     /// a concurrent thread fires continuously while the dump runs
     Stress,
+    /// no signal for the target: the DUMPING thread itself is interrupted (handler without
+    /// SA_RESTART) while it attaches to running threads
+    TracerStorm,
 }
 
 #[derive(Clone, Debug)]
@@ -210,6 +213,7 @@ fn place_name(w: &Where) -> &'static str {
         Where::AfterResume => "after-resume",
         Where::ThreadsEnumerated => "threads-enumerated",
         Where::Stress => "concurrent-stress",
+        Where::TracerStorm => "tracer-interrupted",
     }
 }
 
@@ -231,7 +235,7 @@ fn build_target(rng: &mut Rng, handled: &[i32]) -> Result<(Builder, Target, usiz
 
 pub fn run(rep: &mut Report, thorough: bool) {
     crate::util::install_quiet_panic_hook();
-    rep.rule = "targets with 3 heartbeat threads (signal-logging handlers), 2 blocked sentinel threads and the main thread. Fault enumeration: the destination fails with an error or PANICS (unwinding) at EVERY call index of the fault-free run, under {no ctx, ctx} x {plain, sanitize, limit}; hard errors at later stages (unmapped application memory, crash instruction pointer in an unreadable mapping). Schedules: uniquely numbered signals (rt_tgsigqueueinfo with si_value; standard signals below/above SIGSTOP and realtime signals) placed at each hook point (before attach, between attach and wait, after attach, threads suspended, after flush i, before resume, before detach, after resume) with the group stop succeeding or failing, plus a concurrent sender. Oracle: TracerPid == 0 for every thread right after return, no thread left in t/T state, heartbeats advance, multiset(sent to tid) == multiset(logged by tid). distinct = hash(plan); non-trivial = the dump ran with >= 1 signal placed or >= 1 fault injected".into();
+    rep.rule = "targets with 3 heartbeat threads (signal-logging handlers), 2 blocked sentinel threads and the main thread. Fault enumeration: the destination fails with an error or PANICS (unwinding) at EVERY call index of the fault-free run, under {no ctx, ctx} x {plain, sanitize, limit}; hard errors at later stages (unmapped application memory, crash instruction pointer in an unreadable mapping). Schedules: uniquely numbered signals (rt_tgsigqueueinfo with si_value; standard signals below/above SIGSTOP and realtime signals) placed at each hook point (before attach, between attach and wait, after attach, threads suspended, after flush i, before resume, before detach, after resume) with the group stop succeeding or failing, plus a concurrent sender; plus dumps during which the DUMPING thread itself receives a stream of signals (handler without SA_RESTART) while it attaches to running threads under CPU contention. Oracle: TracerPid == 0 for every thread right after return, no thread left in t/T state, heartbeats advance, multiset(sent to tid) == multiset(logged by tid). distinct = hash(plan); non-trivial = the dump ran with >= 1 signal placed or >= 1 fault injected".into();
     let mut rng = Rng::new(rep.seed.wrapping_mul(303_031));
     let mut handled: Vec<i32> = Vec::new();
     handled.extend_from_slice(&STD_LOW);
@@ -295,6 +299,10 @@ pub fn run(rep: &mut Report, thorough: bool) {
                 let sigs: Vec<i32> = vec![*rng.pick(&RT), *rng.pick(&RT), *rng.pick(&RT)];
                 plans.push(Plan { place, signals: sigs, group_stop: false, ..base.clone() });
             }
+        }
+        // the dumping thread is interrupted while it attaches to threads that keep running
+        for k in 0..(if thorough { 40 } else { 8 }) {
+            plans.push(Plan { place: Where::TracerStorm, group_stop: false, sanitize: k % 2 == 0, ..base.clone() });
         }
         for place in &places {
             for gs in [true, false] {
@@ -414,7 +422,7 @@ pub fn run(rep: &mut Report, thorough: bool) {
         // CPU contention for the plans that place signals around the attach while the target keeps
         // running: the interesting interleavings (a signal dequeued by the tracee between the
         // tracer's attach and its SIGSTOP) only happen when the tracee is not scheduled at once
-        let burners: Vec<std::thread::JoinHandle<()>> = if !plan.group_stop && matches!(plan.place, Where::BeforeAttach | Where::ThreadsEnumerated | Where::Attached | Where::Stress) {
+        let burners: Vec<std::thread::JoinHandle<()>> = if !plan.group_stop && matches!(plan.place, Where::BeforeAttach | Where::ThreadsEnumerated | Where::Attached | Where::Stress | Where::TracerStorm) {
             let n = crate::util::threads() + 4;
             (0..n)
                 .map(|_| {
@@ -457,7 +465,13 @@ pub fn run(rep: &mut Report, thorough: bool) {
             d.set_fault(at, f);
         }
         let view = d.clone();
+        let storm = if matches!(plan.place, Where::TracerStorm) { Some(crate::util::Storm::start(40 + 60 * (pi as u32 % 4))) } else { None };
         let out = dump::dump_into(&o, &mut d);
+        if let Some(st) = storm {
+            let (sent, _) = st.stop();
+            rep.count("tracer_storm_signals_sent_to_the_dumping_thread", sent);
+            rep.count("dumps_under_tracer_storm", 1);
+        }
         verif_hooks::set_sync(None);
         burn_stop.store(true, Ordering::SeqCst);
         for h in burners {
@@ -522,6 +536,7 @@ pub fn run(rep: &mut Report, thorough: bool) {
     rep.require("signals_accounted", 20);
     rep.require("reinjections_observed", 1);
     rep.require("dumps_unwound_by_destination_panic", 5);
+    rep.require("dumps_under_tracer_storm", 4);
 }
 
 
